@@ -5,6 +5,7 @@
 -/
 import Hy.Drv.Frame
 import Hy.Drv.Speedtest
+import Hy.Drv.Rate
 
 open Hy.Drv
 
@@ -29,4 +30,5 @@ def main (args : List String) : IO UInt32 := do
   match args with
   | ["frame"] => loopPure stdin stdout Frame.step; return 0
   | ["speedtest"] => loopPure stdin stdout Speedtest.step; return 0
+  | ["rate"] => loopPure stdin stdout Rate.step; return 0
   | _ => IO.eprintln "usage: hydrv <component>"; return 2
